@@ -24,7 +24,7 @@ INFO = {
 }
 MANDATORY = {'cons_v2': ['consumer-decision-table'], 'prod_v2': ['producer-decision-table'],
              'cons_v1': ['consumer-decision-table'], 'prod_v1': ['producer-decision-table'],
-             'prod_swap': ['producer-decision-table', 'end']}
+             'prod_swap': ['producer-decision-table', 'end'], 'prod_nested': ['producer-decision-table', 'end']}
 
 
 def _consumer(eng, case, front):
@@ -469,7 +469,54 @@ def h_prod_swap(eng, case):
     eng.reach('end')
 
 
-HARNESSES = {'prod_swap': h_prod_swap, 'cons2': h_cons2, 'cons_v2': h_cons_v2, 'cons_v1': h_cons_v1, 'prod_v2': h_prod_v2, 'prod_v1': h_prod_v1}
+def h_prod_nested(eng, case):
+    """nested prefixes: the outer handler has an accepting validator, the inner one has NONE - an Interest with
+    parameters / a signature under the inner prefix is judged by the validator in force for ITS handler (none = rejected),
+    not by a neighbour's; plain Interests are delivered"""
+    import ndn.types as types
+    import ndn.encoding as enc
+    env.symbolic_env(eng)
+    app, face = appenv.make_app('v2')
+    calls = []
+    consulted = []
+
+    async def accept(name, sig, ctx):
+        consulted.append('outer')
+        return [types.ValidResult.PASS, types.ValidResult.ALLOW_BYPASS][eng.choice(2, 'verdict')]
+
+    def mk_handler(tag):
+        def handler(name, app_param, reply, context):
+            calls.append(tag)
+        return handler
+    inner_first = eng.choice(2, 'attach-order')
+    ops = [('/p', 'outer', accept), ('/p/x', 'inner', None)]
+    for pre, tag, val in (reversed(ops) if inner_first else ops):
+        app.attach_handler(pre, mk_handler(tag), val)
+    variant = ['plain', 'params', 'signed'][eng.choice(3, 'variant')]
+    signer = env.make_signer(eng, 'hmac', for_interest=True) if variant == 'signed' else None
+    ap = None if variant == 'plain' else b'a'
+    wire = bytes(enc.make_interest('/p/x/y', enc.InterestParam(nonce=5, lifetime=4000), ap, signer))
+
+    async def main(loop):
+        await app._receive(5, wire)
+        for _ in range(6):
+            await asyncio.sleep(0)
+    loop, r, err = appenv.run(eng, main)
+    if loop.errors:
+        exc = loop.errors[0].get('exception')
+        eng.fail('no-unhandled-error-in-loop', exc_sig(exc) if exc is not None else str(loop.errors[0].get('message')))
+        return
+    if variant == 'plain':
+        eng.check(calls == ['inner'] and not consulted, 'producer-decision-table', {'calls': calls, 'consulted': consulted},
+                  sig='plain-interest')
+    else:
+        eng.check(not calls, 'producer-decision-table', {'calls': list(calls), 'validators_consulted': list(consulted)},
+                  sig='delivered-to-a-handler-without-validator')
+    eng.observe('calls', list(calls))
+    eng.reach('end')
+
+
+HARNESSES = {'prod_nested': h_prod_nested, 'prod_swap': h_prod_swap, 'cons2': h_cons2, 'cons_v2': h_cons_v2, 'cons_v1': h_cons_v1, 'prod_v2': h_prod_v2, 'prod_v1': h_prod_v1}
 
 
 def cases(tier, seed):
@@ -481,6 +528,7 @@ def cases(tier, seed):
             cs.append(('cons2', {'front': front, 'consumers': n}, {'weight': 10}))
     for variant in ('params', 'signed'):
         cs.append(('prod_swap', {'variant': variant}, {'weight': 5}))
+    cs.append(('prod_nested', {}, {'weight': 5}))
     for front in ('prod_v2', 'prod_v1'):
         for variant in ('plain', 'params', 'signed'):
             for val in (True, False):
